@@ -16,6 +16,16 @@ RULE = ("(a) arrays of length 0..12 mixing all JSON types in mixed Go representa
 RULE += (". Widened (~6%): schemas BUILT IN GO (op resolve-desc) whose enum / const lists a Go slice, validated against an instance that is "
          "a RE-SLICE of that very slice (same backing array, length 0..len+2; harness argument aliasInst), at the root or nested in an "
          "array / object on either side: a shorter or longer window is another JSON value, so only the full length matches")
+RULE += (". Widened: (~1.5%) DEEP duplicates — two elements nested 28..70 JSON levels deep (width 1: chains of one-element arrays / "
+         "one-member objects over a small leaf), Equal or differing at the leaf only, the second spelled differently at 1..3 levels (behind a "
+         "pointer, a Go array, a typed slice / typed map, a named key type) — under uniqueItems (oracle: duplicates are duplicates at any "
+         "depth) and through the hash law; (~4%) SEVERAL uniqueItems sites in one Validate call: an array / object of 2..4 arrays of "
+         "mostly 9..20 items that share values at the same indices, some with a late duplicate, some without, each site reached through "
+         "not / anyOf / oneOf / if / contains / items / prefixItems / properties, so that failures of uniqueItems are swallowed and "
+         "validation goes on to the next array; verdicts = model = spec")
+RULE += ("; (~3%) BYTE SEQUENCES ([N]uint8 by value, []uint8, *[N]uint8, elements of [][N]uint8 / [k][N]uint8 / map[string][N]uint8, []any): "
+         "arrays of them with planted duplicates under uniqueItems, and as the values listed by enum / const of a schema built in Go "
+         "(resolve-desc argument govals) against instances in every such spelling, of equal and of different length")
 TRUSTED = ["python canonical-form oracle; 64-bit hash collisions are disregarded"]
 
 
@@ -114,9 +124,191 @@ def alias_case(rng):
             "meta": {"expect": [exp, exp], "len": 2, "alias": True}}
 
 
+def _deep_repr(rng, j, vary, level=0):
+    """The canonical representation of a width-1 chain, except at the levels in `vary`, where the container is spelled differently."""
+    if isinstance(j, list) and len(j) == 1:
+        child = _deep_repr(rng, j[0], vary, level + 1)
+        base = {"t": "[]any", "v": [child]}
+        if level not in vary:
+            return base
+        c = rng.choice(["arr", "ptr", "typed", "pp"])
+        if c == "arr":
+            return {"t": "[1]any", "v": [child]}
+        if c == "typed" and child is not None:
+            return {"t": "[]" + child["t"], "v": [child]}
+        if c == "pp":
+            return {"t": "**[]any", "v": {"t": "*[]any", "v": base}}
+        return {"t": "*[]any", "v": base}
+    if isinstance(j, Obj) and len(j.kvs) == 1:
+        k, v = j.kvs[0]
+        child = _deep_repr(rng, v, vary, level + 1)
+        base = {"t": "map[string]any", "v": [[k, child]]}
+        if level not in vary:
+            return base
+        c = rng.choice(["named", "ptr", "typed", "typed"])
+        if c == "named":
+            return {"t": "map[mystring]any", "v": [[k, child]]}
+        if c == "typed" and child is not None:
+            return {"t": "map[string]" + child["t"], "v": [[k, child]]}
+        return {"t": "*map[string]any", "v": base}
+    return gv.canonical_repr(j)
+
+
+def deep_pair(rng):
+    """(j1, j2, x, y): chains 28..70 levels deep over a small leaf; j2 = j1 or differs at the leaf; y differs from x's spelling at 1..3 levels."""
+    L = rng.randint(28, 70)
+    leaf = rng.choice([Obj([("id", Num("1")), ("tags", ["a", "b"])]), Num("1"), "a", [Num("1"), Num("2")], None, Obj()])
+    leaf2 = leaf if rng.random() < 0.7 else gv.mutate_leaf(rng, leaf)
+    if not gv.float64_ok(leaf2):
+        leaf2 = leaf
+    shape = [rng.choice(["arr", "arr", "k", "next"]) for _ in range(L)]
+
+    def chain(lf):
+        j = lf
+        for sh in reversed(shape):
+            j = [j] if sh == "arr" else Obj([(sh, j)])
+        return j
+    j1, j2 = chain(leaf), chain(leaf2)
+    vary = set(rng.sample(range(0, min(L, 24)), rng.randint(1, 3)))
+    if rng.random() < 0.3:
+        vary.add(rng.randrange(L))
+    x = _deep_repr(rng, j1, set() if rng.random() < 0.8 else {rng.randrange(L)})
+    y = _deep_repr(rng, j2, vary)
+    return j1, j2, x, y
+
+
+def deep_case(rng):
+    j1, j2, x, y = deep_pair(rng)
+    if rng.random() < 0.2:
+        return {"op": "hash", "args": {"x": x, "y": y}, "meta": {"expect_equal": canon(j1) == canon(j2), "len": 2, "deep": True}}
+    items = [x, y] + [gv.canonical_repr(v) for v in rng.sample(["x", None, Num("1"), [], Obj()], rng.randint(0, 2))]
+    rng.shuffle(items)
+    T = rng.choice(["[]any", "[]any", "[%d]any" % len(items)])
+    return {"op": "validate", "args": {"schema": Obj([("uniqueItems", True)]), "ginsts": [{"t": T, "v": items}]},
+            "meta": {"expect": [canon(j1) != canon(j2)], "len": len(items), "deep": True}}
+
+
+SITE_POOL = ([Num(str(k)) for k in range(0, 24)] + ["", "a", "b", "ab", "é", "1", None, True, False, [], Obj(), [Num("1")], [Num("1"), Num("2")],
+             Obj([("a", Num("1"))]), Obj([("a", Num("1")), ("b", Num("2"))]), [[]], Num("0.5"), Num("-1"), Num("1e3")])
+
+
+def _site_schema(rng, n):
+    """A schema for one array in which a failing uniqueItems does not (always) fail the site."""
+    U = Obj([("uniqueItems", True)])
+    c = rng.random()
+    if c < 0.25:
+        return U
+    if c < 0.45:
+        return Obj([("not", U)])
+    if c < 0.6:
+        return Obj([("anyOf", [U, Obj([(rng.choice(["minItems", "maxItems"]), Num(str(n + rng.choice([-1, 0, 1]))))])])])
+    if c < 0.72:
+        return Obj([("oneOf", [U, Obj([(rng.choice(["minItems", "maxItems"]), Num(str(n + rng.choice([-1, 0, 1]))))])])])
+    if c < 0.87:
+        return Obj([("if", U), ("then", rng.choice([True, False, Obj([("minItems", Num(str(n)))])])), ("else", rng.choice([True, False, True]))])
+    return Obj([("anyOf", [Obj([("not", U)]), Obj([("type", "object")])]), ("uniqueItems", rng.random() < 0.5)])
+
+
+def multi_site_case(rng):
+    """2..4 arrays sharing values at the same indices, with and without a late duplicate, each under its own uniqueItems site."""
+    B = rng.sample(SITE_POOL, 20)
+    k = rng.randint(2, 4)
+    fresh = [Num(str(100 + i)) for i in range(40)]
+    rng.shuffle(fresh)
+    arrays = []
+    for _ in range(k):
+        n = rng.randint(9, 20) if rng.random() < 0.85 else rng.randint(2, 8)
+        A = list(B[:n])
+        for _ in range(rng.choice([0, 0, 1, 2, 4])):
+            A[rng.randrange(n)] = fresh.pop()
+        if rng.random() < 0.15:
+            # the shared values at OTHER indices
+            A = A[1:] + A[:1]
+        if rng.random() < 0.5:
+            src = rng.randrange(0, n - 1)
+            dst = rng.randrange(max(src + 1, n // 2), n)
+            v = A[src]
+            if isinstance(v, Obj):
+                v = Obj(list(reversed(v.kvs)))
+            A[dst] = v
+        arrays.append(A)
+    sites = [_site_schema(rng, len(A)) for A in arrays]
+    c = rng.random()
+    if c < 0.3:
+        j, doc = arrays, Obj([("items", sites[0])])
+    elif c < 0.5:
+        j, doc = arrays, Obj([("contains", sites[0])])
+        if rng.random() < 0.5:
+            doc.set(rng.choice(["minContains", "maxContains"]), Num(str(rng.randint(0, k))))
+    elif c < 0.8:
+        j, doc = arrays, Obj([("prefixItems", sites)])
+        if rng.random() < 0.3:
+            doc.set("unevaluatedItems", False)
+    else:
+        names = rng.sample(gv.NAMES, k)
+        j, doc = Obj(list(zip(names, arrays))), Obj([("properties", Obj(list(zip(names, sites))))])
+        if rng.random() < 0.3:
+            doc.set("additionalProperties", sites[0])
+    if rng.random() < 0.25:
+        doc = Obj([("allOf", [doc, Obj([("items" if isinstance(j, list) else "additionalProperties", Obj([("uniqueItems", True)]))])])])
+    if rng.random() < 0.15:
+        doc = Obj([("not", doc)])
+    reprs = [gv.canonical_repr(j)]
+    if rng.random() < 0.5:
+        reprs.append(gv.represent(rng, j))
+    return {"op": "validate", "args": {"schema": doc, "ginsts": reprs}, "meta": {"len": 2, "sites": True}}
+
+
+def bytes_case(rng):
+    if rng.random() < 0.5:
+        n = rng.choice([0, 1, 2, 2, 3, 4])
+        items, seen = [], set()
+        for _ in range(rng.randint(1, 6)):
+            b = gv.gen_bytes_json(rng, n if rng.random() < 0.85 else None)
+            if canon(b) not in seen:
+                seen.add(canon(b))
+                items.append(b)
+        dup = rng.random() < 0.5
+        if dup:
+            items = plant(rng, items)
+        return {"op": "validate", "args": {"schema": Obj([("uniqueItems", True)]), "ginsts": [gv.represent_bytes(rng, items) for _ in range(2)]},
+                "meta": {"expect": [not dup, not dup], "len": len(items), "bytes": True}}
+    j1, j2 = gv.gen_bytes_pair(rng)
+    others = [gv.gen_bytes_json(rng) for _ in range(rng.randint(0, 2))]
+    kw = rng.choice(["Enum", "Enum", "Const"])
+    if kw == "Const":
+        vals, node = [j1], {"Const": {"v": j1}}
+    else:
+        vals = others + [j1]
+        rng.shuffle(vals)
+        node = {"Enum": vals}
+    govals = [[1, kw, i, gv.represent_bytes(rng, v)] for i, v in enumerate(vals) if rng.random() < 0.8]
+    where = rng.choice(["allOf", "prop", "items"])
+    if where == "allOf":
+        nodes, insts = [{"AllOf": [1]}, node], [j2, j1]
+    elif where == "prop":
+        nodes, insts = [{"Properties": [["p", 1]]}, node], [Obj([("p", j2)]), Obj([("p", j1)])]
+    else:
+        nodes, insts = [{"Items": 1}, node], [[j2], [j1]]
+    hit = lambda v: any(canon(v) == canon(w) for w in vals)
+    return {"op": "resolve-desc", "args": {"desc": {"nodes": nodes, "root": 0, "govals": govals},
+                                           "ginsts": [gv.represent_bytes(rng, x) for x in insts]},
+            "meta": {"expect": [hit(j2), hit(j1)], "len": 2, "bytes": True}}
+
+
 def gen(rng, tier, n):
     ops = []
     while len(ops) < n:
+        r0 = rng.random()
+        if r0 > 0.97:
+            ops.append(bytes_case(rng))
+            continue
+        if r0 < 0.015:
+            ops.append(deep_case(rng))
+            continue
+        if r0 < 0.055:
+            ops.append(multi_site_case(rng))
+            continue
         r = rng.random()
         if r < 0.06:
             o = alias_case(rng)
@@ -207,7 +399,7 @@ def judge(o, go, m):
         if go is None:
             return "violation:harness", "no answer"
         if go.get("outcome") == "harness-error":
-            return "violation:harness", "the harness could not build the aliased instance: %s" % go.get("detail")
+            return "violation:harness", "the harness could not build the schema / the aliased instance: %s" % go.get("detail")
         if m is None or "model" not in m:
             return "violation:driver", "driver: %r" % (m,)
         mo = m["model"]
@@ -215,7 +407,8 @@ def judge(o, go, m):
             return "violation", "outcome: real package %s, model %s" % (go.get("outcome"), mo.get("outcome"))
         ev = ["valid" if e else "invalid" for e in o["meta"]["expect"]]
         if go.get("verdicts") != mo.get("verdicts") or go.get("verdicts") != ev:
-            return "violation", "verdicts (first instance: a re-slice of the listed slice; second: the same value built independently): real package %r, model %r, oracle %r" % (
-                go.get("verdicts"), mo.get("verdicts"), ev)
+            what = ("first instance: a re-slice of the listed slice; second: the same value built independently" if o["meta"].get("alias")
+                    else "enum / const of a schema built in Go listing Go values (govals)")
+            return "violation", "verdicts (%s): real package %r, model %r, oracle %r" % (what, go.get("verdicts"), mo.get("verdicts"), ev)
         return "agree", ""
     return vjudge.judge_validate(o, go, m)
